@@ -69,8 +69,11 @@ func canonNoTTL(m *dns.Msg) string {
 	return c.String()
 }
 
-func newCache() *cache.Cache {
-	return cache.NewCache(&cache.Args{Size: 65536}, cache.Opts{})
+func newCache() *cache.Cache { return newCacheLazy(0) }
+
+// newCacheLazy: a cache plugin configured with lazy_cache_ttl = lazy seconds (0 = off).
+func newCacheLazy(lazy int) *cache.Cache {
+	return cache.NewCache(&cache.Args{Size: 65536, LazyCacheTTL: lazy}, cache.Opts{})
 }
 
 func errClass(s string, isNil bool) int {
@@ -171,6 +174,8 @@ func genMsg(r *hx.RNG, name string, qt uint16, ttl uint32, shape int, txtLen int
 		m.Ns = append(m.Ns, soa(ttl, uint32(r.Intn(4))))
 	case 1:
 		m.Ns = append(m.Ns, soa(ttl, uint32(r.Intn(4))))
+	case 7:
+		m.Rcode = dns.RcodeServerFailure
 	default:
 		k := r.Range(1, 3)
 		for i := 0; i < k; i++ {
@@ -212,7 +217,8 @@ type loadObs struct {
 }
 
 // loadFile loads file into a fresh cache by the given route.
-func loadFile(file []byte, via string, dir string) loadObs {
+// lazy: the lazy_cache_ttl setting of the LOADING cache (must not influence what is loaded).
+func loadFile(file []byte, via string, dir string, lazy int) loadObs {
 	res := loadObs{en: -1}
 	done := make(chan struct{})
 	var ms0, ms1 runtime.MemStats
@@ -222,7 +228,7 @@ func loadFile(file []byte, via string, dir string) loadObs {
 		p := hx.Recover(func() {
 			switch via {
 			case "http":
-				c2 := newCache()
+				c2 := newCacheLazy(lazy)
 				res.c2 = c2
 				req := httptest.NewRequest(http.MethodPost, "/load_dump", bytes.NewReader(file))
 				rec := httptest.NewRecorder()
@@ -242,7 +248,7 @@ func loadFile(file []byte, via string, dir string) loadObs {
 					return
 				}
 				core, logs := observer.New(zap.ErrorLevel)
-				c2 := cache.NewCache(&cache.Args{Size: 65536, DumpFile: path, DumpInterval: 1000000}, cache.Opts{Logger: zap.New(core)})
+				c2 := cache.NewCache(&cache.Args{Size: 65536, DumpFile: path, DumpInterval: 1000000, LazyCacheTTL: lazy}, cache.Opts{Logger: zap.New(core)})
 				res.c2 = c2
 				res.err = 0
 				for _, e := range logs.All() {
@@ -252,7 +258,7 @@ func loadFile(file []byte, via string, dir string) loadObs {
 					}
 				}
 			default:
-				c2 := newCache()
+				c2 := newCacheLazy(lazy)
 				res.c2 = c2
 				en, err := c2.VerifReadDump(bytes.NewReader(file))
 				res.en = en
@@ -327,6 +333,12 @@ type roundSpec struct {
 	pre      int
 	sameInst bool
 	cycles   int
+	// lazy_cache_ttl (seconds, 0 = off) of the dumping and of the loading cache
+	lazyDump, lazyLoad int
+	// percent of items shaped like what saveRespToCache stores for NXDOMAIN (30 s),
+	// SERVFAIL (5 s) and empty answers (<= 300 s): stored now, cache expiry =
+	// message expiry = stored + that TTL, whatever the lazy setting is
+	pNeg int
 }
 
 func msgIDs() (func(*dns.Msg) int, func(string) int) {
@@ -376,7 +388,7 @@ func runRoundOnce(id string, r *hx.RNG, sp roundSpec) (hx.Case, bool) {
 	var c1 *cache.Cache
 	path := filepath.Join(dir, "dump.bin")
 	fileCache := func() *cache.Cache {
-		return cache.NewCache(&cache.Args{Size: 65536, DumpFile: path, DumpInterval: 1000000}, cache.Opts{})
+		return cache.NewCache(&cache.Args{Size: 65536, DumpFile: path, DumpInterval: 1000000, LazyCacheTTL: sp.lazyDump}, cache.Opts{})
 	}
 	flush := func(c *cache.Cache) {
 		c.Api().ServeHTTP(httptest.NewRecorder(), httptest.NewRequest(http.MethodGet, "/flush", nil))
@@ -403,7 +415,7 @@ func runRoundOnce(id string, r *hx.RNG, sp roundSpec) (hx.Case, bool) {
 			}
 		}
 	} else {
-		c1 = newCache()
+		c1 = newCacheLazy(sp.lazyDump)
 	}
 
 	n0 := nowMs()
@@ -463,6 +475,24 @@ func runRoundOnce(id string, r *hx.RNG, sp roundSpec) (hx.Case, bool) {
 		} else if sp.between && i == 0 {
 			it.ce = nowMs() + 1100
 			betweenUntil = off(it.ce).Add(50 * time.Millisecond)
+		}
+		if r.Intn(100) < sp.pNeg && !(sp.between && i == 0) && it.ce > n0+90000 {
+			it.st = nowMs()
+			switch r.Intn(3) {
+			case 0:
+				it.resp = genMsg(r, name, qt, ttl, 0, 0) // NXDOMAIN
+				it.me = it.st + 30000
+			case 1:
+				it.resp = genMsg(r, name, qt, ttl, 7, 0) // SERVFAIL
+				it.me = it.st + 5000
+			default:
+				it.resp = genMsg(r, name, qt, ttl, 1, 0) // empty answer
+				it.me = it.st + int64(r.Range(100, 300))*1000
+			}
+			it.ce = it.me
+		} else if sp.lazyDump > 0 && it.ce > n0+90000 && r.Bool() {
+			// a positive answer as a lazy cache stores it: cache expiry = stored + lazy ttl
+			it.ce = it.st + int64(sp.lazyDump)*1000
 		}
 		if sp.exactSizes != nil {
 			// tune the padding to just below the wanted proto.Size, then the key length to hit it exactly
@@ -555,7 +585,7 @@ func runRoundOnce(id string, r *hx.RNG, sp roundSpec) (hx.Case, bool) {
 		time.Sleep(5 * time.Millisecond)
 	}
 	nl := nowMs()
-	lo := loadFile(file, sp.via, dir)
+	lo := loadFile(file, sp.via, dir, sp.lazyLoad)
 	nl1 := nowMs()
 	unambiguous := true
 	for _, it := range items {
@@ -604,7 +634,7 @@ func runRoundOnce(id string, r *hx.RNG, sp roundSpec) (hx.Case, bool) {
 			hx.List(oblocks), hx.Ni(errc), enLit(lo.en), hx.List(loaded)),
 		Desc: map[string]any{"kind": "round", "items": len(items), "blocks": len(blocks), "block_bytes": blens,
 			"loaded": len(loaded), "err": errc, "via": sp.via, "file_bytes": len(file),
-			"earlier_entries_flushed": sp.pre, "earlier_entries_seen_before_flush": preLoaded, "same_instance": sp.sameInst, "empty_restarts": sp.cycles},
+			"lazy_cache_ttl_dumper": sp.lazyDump, "lazy_cache_ttl_loader": sp.lazyLoad, "earlier_entries_flushed": sp.pre, "earlier_entries_seen_before_flush": preLoaded, "same_instance": sp.sameInst, "empty_restarts": sp.cycles},
 		FKey: "round",
 	}, unambiguous
 }
@@ -728,7 +758,20 @@ func crashLoadLit(in *loadInput) string {
 
 // runLoad: cut mode "none" | "plain" (cut the plaintext at k, then compress) |
 // "gz" (cut the compressed file at k).
+// lazyOf: the loading cache's lazy_cache_ttl for a load case, a function of its id.
+func lazyOf(id string) int {
+	h := 0
+	for i := 0; i < len(id); i++ {
+		h = h*31 + int(id[i])
+	}
+	if h < 0 {
+		h = -h
+	}
+	return []int{0, 0, 3600, 0, 86400, 30}[h%6]
+}
+
 func runLoad(id string, in *loadInput, mode string, k int, via string) hx.Case {
+	lazy := lazyOf(id)
 	var file []byte
 	switch mode {
 	case "plain":
@@ -762,7 +805,7 @@ func runLoad(id string, in *loadInput, mode string, k int, via string) hx.Case {
 	}
 	dir, _ := os.MkdirTemp(workRoot, "load")
 	defer os.RemoveAll(dir)
-	lo := loadFile(file, via, dir)
+	lo := loadFile(file, via, dir, lazy)
 
 	idxOf := map[string]int{}
 	for j, e := range in.ents {
@@ -791,7 +834,7 @@ func runLoad(id string, in *loadInput, mode string, k int, via string) hx.Case {
 		Coq: hx.App("CLoad", nameLit(name), hx.List(in.segs), g, hx.Bool(pfx), hx.Ni(lo.err), enLit(lo.en),
 			rangesOf(idx), hx.Bool(contentOK), hx.Ni(lo.crash)),
 		Desc: map[string]any{"kind": "load", "mode": mode, "cut": k, "file_bytes": len(file), "plain_bytes": len(in.plain),
-			"segs": len(in.segs), "entries": len(in.ents), "loaded": len(idx), "err": lo.err, "via": via, "crash": lo.crash},
+			"segs": len(in.segs), "entries": len(in.ents), "loaded": len(idx), "err": lo.err, "via": via, "crash": lo.crash, "lazy_cache_ttl_loader": lazy},
 		FKey: "load:" + mode,
 	}
 }
@@ -808,7 +851,7 @@ func runFuzz(id string, file []byte, what string) hx.Case {
 			g = hx.App("FOpen", hx.Bool(clean))
 		}
 	}
-	lo := loadFile(file, "direct", "")
+	lo := loadFile(file, "direct", "", 0)
 	if lo.c2 != nil {
 		lo.c2.Close()
 	}
@@ -940,7 +983,8 @@ func uniformTTL(m *dns.Msg) bool {
 func runServe(id string, r *hx.RNG, k int) []hx.Case {
 	base := time.Unix(time.Now().Unix(), 0)
 	rel := func(t time.Time) int64 { return t.UnixNano() - base.UnixNano() }
-	c1 := newCache()
+	lazy := hx.Pick(r, []int{0, 3600, 600}) // lazy_cache_ttl of both caches
+	c1 := newCacheLazy(lazy)
 	defer c1.Close()
 	type qa struct {
 		q   *dns.Msg
@@ -994,7 +1038,7 @@ func runServe(id string, r *hx.RNG, k int) []hx.Case {
 	rec := httptest.NewRecorder()
 	c1.Api().ServeHTTP(rec, httptest.NewRequest(http.MethodGet, "/dump", nil))
 	file := rec.Body.Bytes()
-	c2 := newCache()
+	c2 := newCacheLazy(lazy)
 	defer c2.Close()
 	nl := rel(time.Now())
 	rec2 := httptest.NewRecorder()
@@ -1089,6 +1133,19 @@ func buildTasks(o *hx.Opts) []task {
 		{"file_flush_all_expired", roundSpec{n: 4, pExpiring: 100, via: "file", pre: 9}},
 		{"file_flush_then_items", roundSpec{n: 5, via: "file", pre: 10}},
 		{"file_flush_then_items_same_instance", roundSpec{n: 3, via: "file", pre: 10, sameInst: true, cycles: 1}},
+		// lazy_cache_ttl of the dumping / loading cache: off/on, on/on, on/off, different values; negative and
+		// empty answers keep their own (short) cache expiry; every entry must come back with the DUMPED three times
+		{"lazy_off_on", roundSpec{n: 30, pNeg: 40, lazyDump: 0, lazyLoad: 3600}},
+		{"lazy_on_on", roundSpec{n: 30, pNeg: 40, lazyDump: 3600, lazyLoad: 3600, pLazy: 30}},
+		{"lazy_on_on_negative_only", roundSpec{n: 12, pNeg: 100, lazyDump: 3600, lazyLoad: 3600}},
+		{"lazy_on_on_positive_only", roundSpec{n: 12, lazyDump: 3600, lazyLoad: 3600}},
+		{"lazy_on_off", roundSpec{n: 30, pNeg: 40, lazyDump: 3600, lazyLoad: 0, pLazy: 30}},
+		{"lazy_different", roundSpec{n: 30, pNeg: 30, lazyDump: 600, lazyLoad: 86400, pLazy: 20}},
+		{"lazy_shorter", roundSpec{n: 30, pNeg: 30, lazyDump: 86400, lazyLoad: 60, pLazy: 20}},
+		{"lazy_on_on_http", roundSpec{n: 20, pNeg: 50, lazyDump: 7200, lazyLoad: 7200, via: "http"}},
+		{"lazy_on_on_file", roundSpec{n: 20, pNeg: 50, lazyDump: 7200, lazyLoad: 7200, via: "file", pExpiring: 10}},
+		{"lazy_off_on_file", roundSpec{n: 150, pNeg: 20, lazyLoad: 1800, via: "file"}},
+		{"lazy_on_on_between", roundSpec{n: 6, between: true, pNeg: 50, lazyDump: 3600, lazyLoad: 3600}},
 		// single large answers (entries of 40, 60, 70, 100 KiB and more) among ordinary ones
 		{"large_40k", roundSpec{n: 9, txtLen: largeAt(4, 40000)}},
 		{"large_60k", roundSpec{n: 9, txtLen: largeAt(0, 59000)}},
@@ -1147,6 +1204,20 @@ func buildTasks(o *hx.Opts) []task {
 						return 0
 					}
 				}
+				lz := []int{30, 300, 3600, 86400}
+				switch r.Intn(7) {
+				case 0, 1:
+				case 2, 3:
+					sp.lazyDump = hx.Pick(r, lz)
+					sp.lazyLoad = sp.lazyDump
+				case 4:
+					sp.lazyLoad = hx.Pick(r, lz)
+				case 5:
+					sp.lazyDump = hx.Pick(r, lz)
+				default:
+					sp.lazyDump, sp.lazyLoad = hx.Pick(r, lz), hx.Pick(r, lz)
+				}
+				sp.pNeg = hx.Pick(r, []int{0, 20, 60})
 				if sp.via == "file" && r.Chance(2, 3) {
 					sp.pre = r.Range(1, 40)
 					sp.sameInst = r.Bool()
